@@ -65,7 +65,7 @@ def run(ctx):
     nb_expr, nb_exp, nb_case = [], [], []
     undecided = 0
     topo = {}
-    for name, kind, s3 in annot.structures(ctx, kinds=("corpus", "moved", "jitter", "reversed", "thin", "thin-base", "synthetic-stack"), big=True):
+    for name, kind, s3 in annot.structures(ctx, kinds=("corpus", "moved", "jitter", "reversed", "thin", "thin-base", "synthetic-stack", "icode-runs"), big=True):
         try:
             pairs, bphs, brs, sts, o1, o2, raw = annot.annotate(s3)
         except Exception as e:  # noqa: BLE001
